@@ -574,6 +574,31 @@ def r8(ctx, rep):
     rep.borrowed(C07.r1, ctx, "C12.R8", "the unwrap of a template hole's argument in sql/operators.rs relies on every hole being a parameter of its own implementation")
 
 
+def r9(ctx, rep):
+    rep.rule("C12.R9", "no panic-capable site with a crashing input on record is still present", floor=1)
+    cg, syn = ctx.cg, ctx.syn
+    sites = panics.collect(cg, syn)
+    by = {}
+    for s_ in sites:
+        by.setdefault((s_["fn"], s_["cls"], s_["step"]), set()).add(s_["l"])
+    file_of = {(s_["fn"], s_["cls"], s_["step"], s_["l"]): s_["file"] for s_ in sites}
+    table = load("c12_reached.json")["rows"]
+    n_present = 0
+    for row in table:
+        lines = sorted(by.get((row["fn"], row["cls"], row["step"]), ()))
+        # the site is still there when the function still has that many sites of this class and step (a repaired site disappears from the inventory)
+        still = len(lines) >= row["of"] and len(lines) >= row["nth"]
+        key = f"reached:{row['fn']}:{row['cls']}:{row['step']}#{row['nth']}"
+        if still:
+            n_present += 1
+            l_ = lines[row["nth"] - 1]
+            rep.bad(key, f"`{row['cls']}` on `{row['step']}` in {row['fn']} is reached by `{row['input'][:160]}` ({row['entry']}; findings_detail/c12_hunt/case-{row['case']}): the invariant its class was "
+                    "reviewed under does not hold here", file=file_of.get((row["fn"], row["cls"], row["step"], l_)), line=l_, fn=row["fn"])
+        else:
+            rep.ok(key, {"repaired": f"the function has {len(lines)} such site(s), the record was for #{row['nth']} of {row['of']}"})
+    rep.check(len(table) >= 40, "table", f"reviewed/c12_reached.json lists {len(table)} sites")
+
+
 def run(ctx, rep):
-    for r in (r1, r2, r3, r4, r5, r6, r7, r8):
+    for r in (r1, r2, r3, r4, r5, r6, r7, r8, r9):
         rep.guard(r, ctx)
